@@ -40,6 +40,18 @@ def _descendants(snap, wid):
     return out
 
 
+def _retriggered(final):
+    """Known finding join-retrigger in the run that just ended (reads the
+    compare-and-swap log of the current world)."""
+    from mv import sim
+    join_ids = {t['id'] for t in final['task'].values()
+                if t.get('spec_join') is not None}
+    return [c_ for c_ in sim.W.cas
+            if c_['fn'] == 'update_task_execution_state' and c_['matched']
+            and c_['id'] in join_ids and c_['to'] == 'WAITING'
+            and c_['from'] not in (None, 'WAITING')]
+
+
 def check_case(case, stats=None):
     from mv import history, enginerun, sim
     from mv.gen import workflows as G
@@ -165,14 +177,26 @@ def check_case(case, stats=None):
         rows_paused = enginerun.canon_rows(res, error_output=False)
         c0 = dict(c)
         c0['plan'] = []
+        if _self_pausing(case['prog']):
+            # the definition pauses itself (pause-before / pause command):
+            # the reference run resumes as soon as nothing else is pending
+            c0['resume_at_end'] = True
         base = history.run_history(c0, observe=False)
         rows_base = enginerun.canon_rows(base.res, error_output=False)
+        base_retrig = _retriggered(base.res.snap)
         c1 = dict(c0)
         c1['sched'] = {'policy': 'lifo'}
         c1['salt'] = 9
         other = history.run_history(c1, observe=False)
         rows_other = enginerun.canon_rows(other.res, error_output=False)
-        if rows_base != rows_other or not base.res.quiescent:
+        base_retrig = base_retrig or _retriggered(other.res.snap)
+        if base_retrig:
+            # the reference run itself shows the known finding (a join that
+            # left WAITING - here typically one that failed early - put back
+            # to WAITING by a later inbound route): not a reference
+            if stats:
+                stats.counters['known_shape_join_retrigger_seen'] += 1
+        elif rows_base != rows_other or not base.res.quiescent:
             if stats:
                 stats.counters['differential_skipped_not_confluent'] += 1
         elif root['state'] not in FINAL:
@@ -205,6 +229,49 @@ def check_case(case, stats=None):
     return viol
 
 
+def decorate(D, prog, outc):
+    """The quantifier's "during retries ... via pause-before": give up to two
+    plain action tasks a retry (first attempts fail), a wait-before /
+    wait-after delay or pause-before."""
+    progs = [prog] + list(prog.get('subs') or [])
+    for _ in range(D.int(0, 2)):
+        p = D.choice(progs)
+        cands = [nm for nm in p['order']
+                 if not p['tasks'][nm].get('workflow')
+                 and not p['tasks'][nm].get('with-items')
+                 and p['tasks'][nm].get('join') is None
+                 and not any(p['tasks'][nm].get(k) is not None for k in (
+                     'retry', 'wait-before', 'wait-after', 'pause-before'))]
+        if not cands:
+            continue
+        nm = D.choice(cands)
+        t = p['tasks'][nm]
+        kind = D.choice(['retry', 'retry', 'wait-before', 'wait-after',
+                         'pause-before'])
+        if kind == 'retry':
+            k = D.int(1, 2)
+            t['retry'] = {'count': k, 'delay': D.int(0, 2)}
+            last = (outc.get(nm) or [['ok', 'a']])[0]
+            nfail = D.int(1, k) if last[0] == 'ok' else k + 1
+            outc[nm] = [['seq', [['err', 'try-%d' % i]
+                                 for i in range(nfail)] + [last]]]
+        elif kind == 'pause-before':
+            t['pause-before'] = True
+        else:
+            t[kind] = D.int(1, 2)
+
+
+def _self_pausing(prog):
+    for p in [prog] + list(prog.get('subs') or []):
+        for t in p['tasks'].values():
+            if t.get('pause-before'):
+                return True
+            for c in ('on-success', 'on-error', 'on-complete'):
+                if any(e['to'] == 'pause' for e in t.get(c) or []):
+                    return True
+    return False
+
+
 def strategy(max_tasks=6):
     from hypothesis import strategies as st
     from mv.gen import workflows as G
@@ -216,11 +283,13 @@ def strategy(max_tasks=6):
         D = HDraw(draw)
         F = G.feats(with_items=True, async_actions=False, cycles=False,
                     expr_failures=False, partial_joins=False,
-                    state_commands=False, wi_subwf=False)
+                    state_commands=False, wi_subwf=False,
+                    pause_cmd=D.bool(0.3))
         if D.bool(0.5):
             prog, outc = G.gen_nested(D, F, max_tasks)
         else:
             prog, outc = G.gen_direct(D, F, max_tasks)
+        decorate(D, prog, outc)
         plan = history.gen_plan(D, max_cmds=4, horizon=35,
                                 kinds=('pause', 'resume', 'pause'))
         if not plan:
